@@ -276,4 +276,5 @@ RULES = [
     ("IDX.R10", "add_instrument registers the exchange, the instrument and every asset it refers to", common_idx.idx_r10),
     ("IDX.R11", "key translation is role-preserving: each rebuilt field comes from the same field of the source", common_idx.idx_r11),
     ("IDX.R12", "by-name state tables are keyed by the indexed entity's own name", common_idx.idx_r12),
+    ("IDX.R13", "execution-link table: each indexed exchange gets the transmitter registered under its own id (keyed lookup)", common_idx.idx_r13),
 ]
